@@ -4,6 +4,8 @@
 // witness says), the REAL reader is run for the full read and for the requested row range
 // (compiled with AddressSanitizer/UBSan by the framework: a sanitizer report counts as reproduced)
 // and the property is evaluated with an independent oracle built from the entry list.
+// Units mm_dense_*: the witness stream is written as a MatrixMarket ARRAY file (size line "n m", one value per data line,
+// column major) and the real dense overload mm_reader::operator()(val, row_beg, row_end) is run the same way.
 // The framework compiles replay drivers with -D_GLIBCXX_ASSERTIONS.  mm.hpp forms `&col[0] + beg` / `&val[0] + beg` for
 // every row also when the result has no entries (empty vectors): with checked subscripts that ABORTS on every empty
 // matrix / empty row range (recorded as an observation in the unit's report); as in replay/ioadapt.cpp forming that
@@ -168,11 +170,137 @@ static int check(const Stream &S, bool strict) {
     return 0;
 }
 
+// ------------------------------------------------------------------------------------------- dense (array) reader
+static void write_dense_file(const Stream &S) {
+    std::ofstream f(S.path.c_str());
+    f << "%%MatrixMarket matrix " << (S.sparse ? "coordinate " : "array ")
+      << (S.cplx ? "complex " : (S.integer ? "integer " : "real ")) << (S.sym ? "symmetric" : "general") << "\n";
+    f << "% written by replay/mmreader.cpp from a verifier witness\n";
+    f << S.n;
+    if (S.hdr_ok) f << " " << S.m;      // a size line that does not parse: the column count is missing
+    f << "\n";
+    for (size_t k = 0; k < S.nlines && k < S.e.size(); ++k) {
+        const Entry &e = S.e[k];
+        if (e.ntok >= 1) { if (S.cplx) f << e.v << " -" << e.v << ".5"; else f << e.v; }
+        else f << "x";
+        f << "\n";
+    }
+}
+
+template <class Val>
+struct DenseRead {
+    bool thrown; std::string what; size_t rows, cols;
+    std::vector<Val> val;
+    void run(const Stream &S, ptrdiff_t rb, ptrdiff_t re) {
+        thrown = false; rows = cols = 0;
+        // the caller's vector: ONE stale element (resize() then allocates exactly the requested size: AddressSanitizer sees one past the end)
+        val = std::vector<Val>(1, Tok<Val>::make(9));
+        try {
+            amgcl::io::mm_reader r(S.path);
+            std::tie(rows, cols) = r(val, rb, re);
+        } catch (const std::exception &e) { thrown = true; what = e.what(); }
+        if (thrown) std::cout << "  rows [" << rb << "," << re << "): threw: " << what << std::endl;
+        else {
+            std::cout << "  rows [" << rb << "," << re << "): returned " << rows << "x" << cols << " val=[";
+            for (size_t i = 0; i < val.size() && i < 40; ++i) std::cout << (i ? "," : "") << val[i];
+            std::cout << "]" << std::endl;
+        }
+    }
+};
+
+template <class Val>
+static int check_dense(const Stream &S) {
+    write_dense_file(S);
+    struct Rm { std::string p; ~Rm() { std::remove(p.c_str()); } } rm = { S.path };
+    DenseRead<Val> R1, R2;
+    R1.run(S, -1, -1);
+    R2.run(S, S.row_beg, S.row_end);
+    const bool t1 = R1.thrown, t2 = R2.thrown;
+    const long N = S.n, M = S.m;
+    const long rb = S.row_beg < 0 ? 0 : (long)S.row_beg, re = S.row_end < 0 ? N : (long)S.row_end;
+    const bool kind_ok = !S.sparse && S.cplx == S.valc && S.integer == S.vali;
+    const bool head_ok = kind_ok && S.hdr_ok;
+    const bool sizes_ok = N >= 0 && M >= 0;
+    const size_t need = sizes_ok ? (size_t)N * (size_t)M : 0;
+    // the value token of entry (i, j): data line j*n + i (column major file)
+    bool full_ok = true, range_ok = true;
+    if (sizes_ok)
+        for (long j = 0; j < M; ++j) for (long i = 0; i < N; ++i) {
+            const size_t k = (size_t)j * (size_t)N + (size_t)i;
+            if (k < S.nlines && k < S.e.size() && S.e[k].ntok < 1) { full_ok = false; if (i >= rb && i < re) range_ok = false; }
+        }
+    if (S.sparse && !(t1 && t2)) FAIL("a file that is not a dense (array) matrix did not make the reader throw");
+    if (!S.sparse && !kind_ok && !(t1 && t2)) FAIL("a wrong value kind did not make the reader throw");
+    if (kind_ok && !S.hdr_ok && !(t1 && t2)) FAIL("a size line that does not parse did not make the reader throw");
+    if (head_ok && re > N && !t2) FAIL("a row range beyond n did not make the reader throw");
+    if (head_ok && !sizes_ok && !(t1 && t2)) FAIL("a negative row or column count in the size line did not make the reader throw");
+    if (head_ok && sizes_ok && S.nlines < need && !(t1 && t2)) FAIL("a file truncated before its last data line did not make the reader throw"
+        << (t1 ? " (range read)" : " (full read)"));
+    if (head_ok && sizes_ok && !full_ok && !t1) FAIL("a data line that does not parse did not make the full read throw");
+    if (head_ok && sizes_ok && !range_ok && !t2) FAIL("a data line of a requested row that does not parse did not make the range read throw");
+    if (head_ok && sizes_ok && S.nlines >= need) {
+        if (full_ok && t1) FAIL("well-formed file, but the full read threw: " << R1.what);
+        if (range_ok && re <= N && t2) FAIL("row range inside [0, n] and all its data lines parse, but the range read threw: " << R2.what);
+    }
+    if (head_ok && sizes_ok) {
+        if (!t1) {
+            if (R1.rows != (size_t)N || R1.cols != (size_t)M || R1.val.size() != need)
+                FAIL("full read returns the wrong shape " << R1.rows << "x" << R1.cols << " with " << R1.val.size() << " values");
+            for (long i = 0; i < N; ++i) for (long j = 0; j < M; ++j)
+                if (R1.val[(size_t)(i * M + j)] != Tok<Val>::make(S.e[(size_t)(j * N + i)].v))
+                    FAIL("full read: val[" << i << "*m+" << j << "] is not the value token of data line " << j * N + i);
+        }
+        if (!t2 && re <= N) {
+            const size_t rows = (size_t)(re - rb);
+            if (R2.rows != rows || R2.cols != (size_t)M) FAIL("range read returns the wrong shape " << R2.rows << "x" << R2.cols);
+            if (R2.val.size() != rows * (size_t)M) FAIL("range read: structurally invalid result, val.size() = " << R2.val.size() << " != rows * m");
+            for (long i = rb; i < re; ++i) for (long j = 0; j < M; ++j) {
+                const Val got = R2.val[(size_t)((i - rb) * M + j)];
+                if (!t1 && got != R1.val[(size_t)(i * M + j)])
+                    FAIL("range read != slice of the full read: row " << i << " column " << j << ": " << got << " vs " << R1.val[(size_t)(i * M + j)]);
+                if (got != Tok<Val>::make(S.e[(size_t)(j * N + i)].v))
+                    FAIL("range read: entry (" << i << "," << j << ") is not the value token of data line " << j * N + i);
+            }
+        }
+    }
+    std::cout << "property holds on this input" << std::endl;
+    return 0;
+}
+
+static int main_dense(const Witness &w, const std::string &unit) {
+    if (!w.has("w_ev") || !w.has("w_n")) { std::cout << "no witness" << std::endl; return 3; }
+    Stream S;
+    S.sparse = w.num("w_sparse") != 0; S.sym = w.num("w_sym") != 0; S.cplx = w.num("w_complex") != 0; S.integer = w.num("w_integer") != 0;
+    S.valc = w.num("w_valc") != 0; S.vali = w.num("w_vali") != 0; S.hdr_ok = w.num("w_hdr_ok") != 0;
+    S.n = (long)w.num("w_n"); S.m = (long)w.num("w_m"); S.nnz = 0; S.nlines = (size_t)w.num("w_nlines");
+    std::vector<double> ev = w.arr("w_ev"), et = w.arr("w_entok");
+    if (S.n > 64 || S.m > 64 || S.nlines > 4096) { std::cout << "witness outside the unit's bound" << std::endl; return 3; }
+    size_t cnt = S.nlines;
+    if (S.n > 0 && S.m > 0) cnt = std::max(cnt, (size_t)(S.n * S.m));
+    for (size_t k = 0; k < cnt; ++k) {
+        Entry e; e.i = e.j = 0;
+        e.v = k < ev.size() ? (unsigned)ev[k] : 0; e.ntok = k < et.size() ? (int)et[k] : 1;
+        S.e.push_back(e);
+    }
+    S.row_beg = arg64(w, "w_row_beg"); S.row_end = arg64(w, "w_row_end");
+    S.path = "/verif/build/replay/mmreader_" + unit + ".mm";
+    std::cout << "array file: " << (S.sparse ? "coordinate " : "array ") << (S.cplx ? "complex " : (S.integer ? "integer " : "real "))
+              << (S.sym ? "symmetric" : "general") << "; size line " << S.n << (S.hdr_ok ? " " + std::to_string(S.m) : std::string(" (m missing)"))
+              << "; " << S.nlines << " data lines:";
+    for (size_t k = 0; k < S.nlines && k < S.e.size(); ++k) std::cout << " " << (S.e[k].ntok >= 1 ? std::to_string(S.e[k].v) : std::string("x"));
+    std::cout << "; Val is " << (S.valc ? "complex" : (S.vali ? "integer" : "real")) << "; row_beg=" << S.row_beg << " row_end=" << S.row_end << std::endl;
+    if (S.valc && S.vali) { std::cout << "no such value type" << std::endl; return 3; }
+    if (S.valc) return check_dense<std::complex<double> >(S);
+    if (S.vali) return check_dense<int>(S);
+    return check_dense<double>(S);
+}
+
 int main(int argc, char **argv) {
     if (argc < 3) return 2;
     std::string unit = argv[1];
     Witness w;
     if (!w.load(std::string(argv[2]) + ".in")) { std::cout << "no witness input" << std::endl; return 3; }
+    if (unit == "mm_dense_read" || unit == "mm_dense_strict") return main_dense(w, unit);
     if (unit != "mm_sparse_read" && unit != "mm_sparse_strict") { std::cout << "no replay for unit " << unit << std::endl; return 3; }
     if (!w.has("w_ei") || !w.has("w_n")) { std::cout << "no witness" << std::endl; return 3; }
     Stream S;
